@@ -204,17 +204,32 @@ def escapeStr (raw : Char → Bool) : Str → Str
 /-- The string token as printed: quote, escaped body, quote. -/
 def printStr (raw : Char → Bool) (s : Str) : Str := '"' :: (escapeStr raw s ++ ['"'])
 
-/-- Three-valued results of the text level: `err` = the real lexer records an error (or,
-before fix C18-a, panics); `unsupported` = outside the modelled fragment (compared by the
-harness with nothing). -/
+/-- The lexer's error classes (`lang::Error` variants recorded by lexer.rs), plus two that
+never leave the model's lexer: `unterminatedString` (end of text inside a string: the real
+lexer silently stops producing tokens, `lexAux` turns it into the end of the token list) and
+`parse` (used by `parseText` for an error of the parser or of `Args::build`). -/
+inductive LexErr where
+  | invalidCharacter
+  | unknownEscapeSequence
+  | numberOutOfRange
+  | multipleDecimalPoints
+  | numberWithoutUnits
+  | invalidDimensionUnit
+  | unterminatedString
+  | parse
+deriving DecidableEq, Repr
+
+/-- Results of the text level: `err e` = the real lexer records error `e` (before fix C18-a
+some of these were panics); `unsupported` = the fuel of `lexAux` ran out (`lex_total`: it never
+does). -/
 inductive Res (α : Type) where
   | ok (a : α)
-  | err
+  | err (e : LexErr)
   | unsupported
 deriving Repr
 
 def Res.map {α β} (f : α → β) : Res α → Res β
-  | .ok a => .ok (f a) | .err => .err | .unsupported => .unsupported
+  | .ok a => .ok (f a) | .err e => .err e | .unsupported => .unsupported
 
 inductive SState where
   | norm
@@ -225,13 +240,13 @@ inductive SState where
   | hex (v : Nat) (valid : Bool)
 
 def Res.push {α} (c : Char) : Res (Str × α) → Res (Str × α)
-  | .ok p => .ok (c :: p.1, p.2) | .err => .err | .unsupported => .unsupported
+  | .ok p => .ok (c :: p.1, p.2) | .err e => .err e | .unsupported => .unsupported
 
 /-- The string branch of `Lexer::next`, started after the opening quote; one character per
-step. Reaching the end of the text inside a string is `unsupported` (the real lexer silently
-stops producing tokens). -/
+step. Reaching the end of the text inside a string is `err unterminatedString` (the real lexer
+silently stops producing tokens; see `lexStep`). -/
 def scanStr : SState → List Char → Res (Str × List Char)
-  | _, [] => .unsupported
+  | _, [] => .err .unterminatedString
   | .norm, c :: r =>
     if c = '"' then .ok ([], r)
     else if c = '\\' then scanStr .esc r
@@ -243,18 +258,18 @@ def scanStr : SState → List Char → Res (Str × List Char)
     else if n = '0' then (scanStr .norm r).push '\x00'
     else if n = 'r' then (scanStr .norm r).push '\r'
     else if n = 'u' then scanStr .afterU r
-    else .err                            -- UnknownEscapeSequence
+    else .err .unknownEscapeSequence
   | .afterU, c :: r =>
     if c = '{' then scanStr (.hex 0 true) r
-    else .err                            -- malformed `\u` escape (an error since fix C18-a)
+    else .err .unknownEscapeSequence     -- malformed `\u` escape (an error since fix C18-a)
   | .hex v valid, c :: r =>
     if c = '}' then
       if valid ∧ Nat.isValidChar v then (scanStr .norm r).push (Char.ofNat v)
-      else .err                          -- not a scalar value
+      else .err .unknownEscapeSequence   -- not a scalar value
     else
       match hexVal c with
       | some d => scanStr (.hex (v * 16 + d) valid) r
-      | none => .err                     -- malformed `\u{…` escape
+      | none => .err .unknownEscapeSequence  -- malformed `\u{…` escape
 
 /-! ## Tokens and the lexer -/
 
@@ -291,24 +306,26 @@ text starting at the unit's first letter. With fix C18-a every overflow is an er
 def lexUnit (neg : Bool) (n : Nat) (ds : List Nat) (r : List Char) : Res (BTok × List Char) :=
   let sign : Int := if neg then -1 else 1
   let (u, r') := scanWord r
-  if n > 2147483647 then .err else
+  if n > 2147483647 then .err .numberOutOfRange else
   let frac := fromDecimalDigits ds
   match unitFraction u with
   | some (num, den, isSp) =>
     match scaledNew n frac num den isSp with
     | some s => .ok (.dim (sign * s), r')
-    | none => .err
+    | none => .err .numberOutOfRange
   | none =>
     match InfOrder.ofUnit u with
     | some o =>
       let s : Int := (frac : Int) + 65536 * (n : Int)
-      if s > 2147483647 then .err else .ok (.inf (sign * s) o, r')
-    | none => .err
+      if s > 2147483647 then .err .numberOutOfRange else .ok (.inf (sign * s) o, r')
+    | none => .err .invalidDimensionUnit
 
 def lexInt (neg : Bool) (n : Nat) (r : List Char) : Res (BTok × List Char) :=
-  if n > 2147483647 then .err else .ok (.int ((if neg then -1 else 1) * (n : Int)), r)
+  if n > 2147483647 then .err .numberOutOfRange
+  else .ok (.int ((if neg then -1 else 1) * (n : Int)), r)
 
-/-- `Lexer::parse_number`, started at the first digit (or after the `-`). -/
+/-- `Lexer::parse_number`, started at the first digit (or after the `-`). The error is the
+first one the real lexer records. -/
 def lexNumber (neg : Bool) (cs : List Char) : Res (BTok × List Char) :=
   let (n, r1) := scanDigits 0 cs
   match r1 with
@@ -317,46 +334,60 @@ def lexNumber (neg : Bool) (cs : List Char) : Res (BTok × List Char) :=
     if c = '.' then
       let (ds, r3) := scanFrac r2
       match r3 with
-      | [] => .err                                   -- NumberWithoutUnits
-      | c' :: _ => if isAlpha c' then lexUnit neg n ds r3 else .err
+      | [] => .err .numberWithoutUnits
+      | c' :: _ =>
+        if isAlpha c' then lexUnit neg n ds r3
+        else if c' = '.' then .err .multipleDecimalPoints
+        else .err .numberWithoutUnits
     else if isAlpha c then lexUnit neg n [] r1
     else lexInt neg n r1
 
 def Res.cons {α} (a : α) : Res (List α) → Res (List α)
-  | .ok l => .ok (a :: l) | .err => .err | .unsupported => .unsupported
+  | .ok l => .ok (a :: l) | .err e => .err e | .unsupported => .unsupported
 
-/-- `Lexer::next` iterated (comments dropped: they do not reach the lists). -/
+/-- One call of `Lexer::next` at a non-empty text `c :: r`. -/
+inductive Step where
+  /-- whitespace or a comment was skipped -/
+  | skip (rest : List Char)
+  | tok (t : BTok) (rest : List Char)
+  | err (e : LexErr)
+  /-- the lexer returns `None` (end of text inside a string) -/
+  | stop
+
+def Step.ofRes : Res (BTok × List Char) → Step
+  | .ok (t, r) => .tok t r
+  | .err .unterminatedString => .stop
+  | .err e => .err e
+  | .unsupported => .stop
+
+def lexStep (c : Char) (r : List Char) : Step :=
+  if c = '#' then .skip (dropLine r)
+  else if isWs c then .skip r
+  else if c = '(' then .tok .lparen r
+  else if c = ')' then .tok .rparen r
+  else if c = '[' then .tok .lbrack r
+  else if c = ']' then .tok .rbrack r
+  else if c = ',' then .tok .comma r
+  else if c = '=' then .tok .eq r
+  else if c = '"' then Step.ofRes ((scanStr .norm r).map (fun p => (BTok.str p.1, p.2)))
+  else if c = '-' then Step.ofRes (lexNumber true r)
+  else if (digitVal c).isSome then Step.ofRes (lexNumber false (c :: r))
+  else if isAlpha c then
+    let (w, r') := scanWord r
+    .tok (.kw (c :: w)) r'
+  else .err .invalidCharacter
+
+/-- `Lexer::next` iterated (comments dropped: they do not reach the lists). Every step consumes
+at least one character (`lexStep_shorter`), so fuel `length + 1` suffices (`lex_total`). -/
 def lexAux : Nat → List Char → Res (List BTok)
   | 0, _ => .unsupported
   | _ + 1, [] => .ok []
   | f + 1, c :: r =>
-    if c = '#' then lexAux f (dropLine r)
-    else if isWs c then lexAux f r
-    else if c = '(' then (lexAux f r).cons .lparen
-    else if c = ')' then (lexAux f r).cons .rparen
-    else if c = '[' then (lexAux f r).cons .lbrack
-    else if c = ']' then (lexAux f r).cons .rbrack
-    else if c = ',' then (lexAux f r).cons .comma
-    else if c = '=' then (lexAux f r).cons .eq
-    else if c = '"' then
-      match scanStr .norm r with
-      | .ok (s, r') => (lexAux f r').cons (.str s)
-      | .err => .err
-      | .unsupported => .unsupported
-    else if c = '-' then
-      match lexNumber true r with
-      | .ok (t, r') => (lexAux f r').cons t
-      | .err => .err
-      | .unsupported => .unsupported
-    else if (digitVal c).isSome then
-      match lexNumber false (c :: r) with
-      | .ok (t, r') => (lexAux f r').cons t
-      | .err => .err
-      | .unsupported => .unsupported
-    else if isAlpha c then
-      let (w, r') := scanWord r
-      (lexAux f r').cons (.kw (c :: w))
-    else .err                            -- InvalidCharacter
+    match lexStep c r with
+    | .skip r' => lexAux f r'
+    | .tok t r' => (lexAux f r').cons t
+    | .err e => .err e
+    | .stop => .ok []
 
 def lex (src : List Char) : Res (List BTok) := lexAux (src.length + 1) src
 
@@ -937,8 +968,8 @@ def parseToks (m : Mode) (toks : List BTok) : Option (List Node) :=
 /-- Text level. -/
 def parseText (m : Mode) (src : List Char) : Res (List Node) :=
   match lex src with
-  | .ok toks => match parseToks m toks with | some l => .ok l | none => .err
-  | .err => .err
+  | .ok toks => match parseToks m toks with | some l => .ok l | none => .err .parse
+  | .err e => .err e
   | .unsupported => .unsupported
 
 def printNodes (m : Mode) (l : List Node) : List BTok := printCalls (lower m l)
